@@ -39,6 +39,12 @@ class Ref:
         self.covered = {}      # sid -> set of offsets seen on the wire
         self.fin_seen = set()
         self.stopped = set()
+        # what the peer actually RECEIVED: the harness decides which packets are lost (never
+        # acknowledged, not even late); only packets it acknowledges count as delivered
+        self.pkt = {}          # pn -> [(sid, off, end, fin)] of application-space packets
+        self.lost = set()      # pns the harness decided to lose
+        self.delivered = {}    # sid -> set of offsets in acknowledged packets
+        self.fin_delivered = set()
 
     def e_initiated(self, sid):
         return (sid % 2 == 0) == self.client
@@ -66,6 +72,8 @@ class Ref:
                     self.covered.setdefault(sid, set()).update(range(f["off"], end))
                     if f["fin"]:
                         self.fin_seen.add(sid)
+                    if r.epoch == "A":
+                        self.pkt.setdefault(r.pn, []).append((sid, f["off"], end, f["fin"]))
                 elif t == "RESET_STREAM":
                     sid = f["id"]
                     v = self._stream_id_ok(sid, t)
@@ -97,10 +105,22 @@ class Ref:
                         % (t, sid, self.max_streams[uni], "uni" if uni else "bidi"))
         return None
 
+    def lose(self, pns):
+        self.lost.update(pns)
+
+    def deliver(self, pns):
+        for pn in pns:
+            for sid, off, end, fin in self.pkt.get(pn, ()):
+                self.delivered.setdefault(sid, set()).update(range(off, end))
+                if fin:
+                    self.fin_delivered.add(sid)
+
     def key(self):
         return (tuple(sorted(self.limit.items())), self.max_data, tuple(sorted(self.max_streams.items())),
                 tuple(sorted((k, tuple(v)) for k, v in self.written.items())),
-                tuple(sorted(self.sent_hi.items())), tuple(sorted(self.fin_seen)), tuple(sorted(self.stopped)))
+                tuple(sorted(self.sent_hi.items())), tuple(sorted(self.fin_seen)), tuple(sorted(self.stopped)),
+                tuple(sorted((sid, tuple(map(tuple, _ranges(v)))) for sid, v in self.delivered.items())),
+                tuple(sorted(self.fin_delivered)), tuple(sorted(self.lost)))
 
 
 def alphabet(role):
@@ -136,6 +156,15 @@ def make_bot(role, cfgname):
     side = "s" if role == "client" else "c"      # the PEER's advertised limits
     cfg = {side + "_max_data": md, side + "_max_stream_data": msd, side + "_max_streams": st}
     return peerbot.PeerBot(role, cfg=cfg)
+
+
+def ack_live(bot, ref):
+    """Acknowledge every outstanding application-space packet the harness has not decided to lose."""
+    pns = sorted(x.pn for x in bot.outstanding if x.epoch == "A" and x.pn not in ref.lost)
+    if not pns:
+        return None
+    ref.deliver(pns)
+    return bot.ack(pns)
 
 
 def step(bot, ref, mv):
@@ -179,12 +208,14 @@ def step(bot, ref, mv):
         r = bot.send([{"t": "MAX_STREAMS", "uni": uni, "max": v}])
         ref.max_streams[uni] = max(cur, v)
     elif k == "ACKALL":
-        r = bot.ack()
+        r = ack_live(bot, ref)
     elif k == "LOSE_OLDER":
-        pns = sorted(x.pn for x in bot.outstanding if x.epoch == "A")
+        pns = sorted(x.pn for x in bot.outstanding if x.epoch == "A" and x.pn not in ref.lost)
         if len(pns) < 2:
             return None, "noop"
         bot.advance(1.0)
+        ref.lose(pns[:-1])
+        ref.deliver(pns[-1:])
         r = bot.ack([pns[-1]])
     elif k in ("PTOLOSS_MD", "PTOLOSS_MSD"):
         t = bot.E.conn.get_timer()
@@ -194,10 +225,12 @@ def step(bot, ref, mv):
         v0 = ref.observe(r0.sent) if r0 is not None else None
         if v0:
             return v0, "bad"
-        pns = sorted(x.pn for x in bot.outstanding if x.epoch == "A")
+        pns = sorted(x.pn for x in bot.outstanding if x.epoch == "A" and x.pn not in ref.lost)
         if len(pns) < 2:
             return None, "noop"
         bot.advance(1.0)
+        ref.lose(pns[:-1])
+        ref.deliver(pns[-1:])
         frames = [{"t": "ACK", "ranges": [(pns[-1], pns[-1])], "delay": 0}]
         bot.outstanding = [x for x in bot.outstanding if not (x.epoch == "A" and x.pn == pns[-1])]
         if k == "PTOLOSS_MD":
@@ -265,7 +298,7 @@ def drain(bot, ref):
         if v:
             return v
     for _ in range(12):
-        r = bot.ack()
+        r = ack_live(bot, ref)
         if r is not None:
             v = ref.observe(r.sent)
             if v:
@@ -283,9 +316,10 @@ def drain(bot, ref):
         sid = missing[0]
         w = ref.written[sid]
         return ({"monitor": "drain.starved"},
-                "after all limits were raised and packets acknowledged, stream %d: written %d fin=%r but the "
-                "wire carried offsets %r fin=%r" % (sid, w[0], w[1], _ranges(ref.covered.get(sid, set())),
-                                                    sid in ref.fin_seen))
+                "after all limits were raised and every packet not lost was acknowledged, stream %d: written %d fin=%r "
+                "but the peer received offsets %r fin=%r (put on the wire at some point: %r fin=%r; packets lost: %r)"
+                % (sid, w[0], w[1], _ranges(ref.delivered.get(sid, set())), sid in ref.fin_delivered,
+                   _ranges(ref.covered.get(sid, set())), sid in ref.fin_seen, sorted(ref.lost)))
     return None
 
 
@@ -293,8 +327,8 @@ def _complete(ref, sid):
     n, fin, reset = ref.written[sid]
     if reset or sid in ref.stopped:
         return True
-    cov = ref.covered.get(sid, set())
-    return all(o in cov for o in range(n)) and (not fin or sid in ref.fin_seen)
+    cov = ref.delivered.get(sid, set())
+    return all(o in cov for o in range(n)) and (not fin or sid in ref.fin_delivered)
 
 
 def _ranges(s):
@@ -464,7 +498,13 @@ def zr_factory(sc):
     if not store["client"]:
         raise core.HarnessError("no session ticket obtained")
     cfg = {"s_max_stream_data": l2[0], "s_max_data": l2[1], "tickets": store, "alpn": ["verif"]}
-    script = {"c": [{"op": "w", "sid": 0, "n": sc["n"], "fin": True, "g": "now"},
+    g0 = "now"
+    if sc.get("front"):
+        # the server's front end answers the first flight with a Retry / Version Negotiation packet: the
+        # client starts over, but what it already charged against the remembered limits stays charged
+        cfg[sc["front"]] = True
+        g0 = "pre"
+    script = {"c": [{"op": "w", "sid": 0, "n": sc["n"], "fin": True, "g": g0},
                     {"op": "w", "sid": 4, "n": sc["n"], "fin": True, "g": "now"}]}
 
     def goal(w):
@@ -494,6 +534,10 @@ def run(ctx):
         for l2 in (l1, (l1[0] + 20, l1[1] + 20)):
             for n in (l1[0], l1[0] + 1, 2 * l1[0]):
                 zr["zr|%s|%s|n%d" % (l1, l2, n)] = {"l1": l1, "l2": l2, "n": n}
+    for front in ("retry", "vn"):
+        for l1, l2 in (((40, 60), (40, 60)), ((40, 60), (60, 80))):
+            for n in (40, 80):
+                zr["zr|%s|%s|n%d|%s" % (l1, l2, n, front)] = {"l1": l1, "l2": l2, "n": n, "front": front}
     netcheck.explore_scenarios(ctx, "c06zr", zr, 1 if quick else 2, "zero_rtt_remembered_limits")
     ctx.cov["rule"] = (
         "BFS with history replay: application writes/FIN/reset on 3 streams of a real sending endpoint whose "
